@@ -150,28 +150,32 @@ def runTemplate (symm : Bool) (f : α → α → α) : Val → Outcome α
 /-- the table row a function object was generated from -/
 def rowOf (sname : String) : Option Row := rows.find? fun r => r.names.head? == some sname
 
+/-- the body of a generated function, run on its bound parameters (`f` the row's formula, `ft` the same formula at
+    the class `Taint`) -/
+def evalBound (symm : Bool) (f : α → α → α → α) (ft : Taint → Taint → Taint → Taint) (b : List (String × Val)) : Outcome α :=
+  match b.lookup "size" with
+  | Option.none => .err "TypeError"
+  | some size =>
+    match b.lookup "alpha" with
+    | Option.none => runTemplate symm (fun s n => f s n (TrigField.ofInt 0)) size   -- no such parameter: unused
+    | some v =>
+      match (v.toNum : Option α) with
+      | some av => runTemplate symm (fun s n => f s n av) size
+      | Option.none =>
+        -- alpha is None / a str: TypeError at the first sample whose formula uses alpha
+        match runTemplate (α := Taint) symm (fun s n => ft s n ⟨true⟩) size with
+        | .err e => .err e
+        | .ok ts =>
+          if ts.any (·.t) then .err "TypeError"
+          else runTemplate symm (fun s n => f s n (TrigField.ofInt 0)) size
+
 /-- calling a function object with Python arguments -/
 def pyCallFunc (fn : Func) (a : Args) : Outcome α :=
   match rowOf fn.sname, formula (α := α) fn.sname, formula (α := Taint) fn.sname with
   | some row, some f, some ft =>
     match bind (funcSig (if fn.symm then wsymmSig else windowSig) row) a with
     | .error e => .err e
-    | .ok b =>
-      match b.lookup "size" with
-      | Option.none => .err "TypeError"
-      | some size =>
-        match b.lookup "alpha" with
-        | Option.none => runTemplate fn.symm (fun s n => f s n (TrigField.ofInt 0)) size   -- no such parameter: unused
-        | some v =>
-          match (v.toNum : Option α) with
-          | some av => runTemplate fn.symm (fun s n => f s n av) size
-          | Option.none =>
-            -- alpha is None / a str: TypeError at the first sample whose formula uses alpha
-            match runTemplate (α := Taint) fn.symm (fun s n => ft s n ⟨true⟩) size with
-            | .err e => .err e
-            | .ok ts =>
-              if ts.any (·.t) then .err "TypeError"
-              else runTemplate fn.symm (fun s n => f s n (TrigField.ofInt 0)) size
+    | .ok b => evalBound fn.symm f ft b
   | _, _, _ => .err "KeyError"
 
 /-- how the caller gets at the strategy -/
